@@ -16,9 +16,14 @@ Proved (proof, partial) for the unary operation classes between ITERATION engine
     chains and joins), for EVERY combination of the options and a preferred engine of either family: the
     SQL engine does not back-track, a transfer goes through `conform`, and `append_unary` in either
     engine does the rest (by the tree-building induction of C17).
+  * `backtracking_sound_any_preferred_engine`, `apply_with_sql_preferred_engine_sound`: back-tracking from an
+    iteration-engine target INTO a SQL engine - the operation is handed to the SQL engine's own `apply`
+    below the transfer that leads there (`Rel.prefTargetsGood`: that subtree is one the SQL tree-building
+    theorems cover, e.g. anything the SQL factories built) - and `apply` with such a preferred engine,
+    `backtrack` and `require_preferred_engine` in any combination, `transfer=False` (the default).
 Excluded by hypothesis, not proved: a Projection back-tracked past a Deduplication (`spineNoDedup`;
-this is the unsound pair of C04, finding F04), joins (`PartialJoin`), and back-tracking from an
-iteration-engine target INTO a SQL engine: those are validated by correspondence + oracle.
+this is the unsound pair of C04, finding F04), joins (`PartialJoin`), and `transfer=True` towards a SQL
+preferred engine from an iteration-engine target: those are validated by correspondence + oracle.
 
 Working out this induction is what exposed three genuine defects of the implementation (now
 repaired in /repo, see DESIGN.md section 12, #19, #21, #22): the statements below could not be
@@ -39,7 +44,23 @@ theorem backtracking_sound (σ : Leaves) (st : Store) (pref : Engine) (hpk : pre
     (hwf : tree.WF) (htr : tree.Truthful σ) (hop : o.wfOn tree.columns = true)
     (hnd : o.isProj = true → tree.spineNoDedup)
     (h : backtrack st fuel (.u o) tree pref = .ok (res, done)) : BTok σ o tree (res.get tree) done :=
-  backtrack_sound σ st pref hpk fuel o tree res done hwf htr hop hnd h
+  backtrack_sound σ st pref fuel o tree res done hwf htr hop hnd (prefTargetsGood_of_iter σ pref hpk tree) h
+
+/-- **Back-tracking is sound for a preferred engine of either family.** -/
+theorem backtracking_sound_any_preferred_engine (σ : Leaves) (st : Store) (pref : Engine)
+    (fuel : Nat) (o : UOp) (tree : Rel) (res : Res) (done : Bool)
+    (hwf : tree.WF) (htr : tree.Truthful σ) (hop : o.wfOn tree.columns = true)
+    (hnd : o.isProj = true → tree.spineNoDedup) (hpo : tree.prefTargetsGood σ pref)
+    (h : backtrack st fuel (.u o) tree pref = .ok (res, done)) : BTok σ o tree (res.get tree) done :=
+  backtrack_sound σ st pref fuel o tree res done hwf htr hop hnd hpo h
+
+/-- **`apply` on an iteration-engine target with a preferred engine of either family** (`transfer=False`). -/
+theorem apply_with_sql_preferred_engine_sound (σ : Leaves) (st : Store) (fuel : Nat) (o : UOp) (t : Rel)
+    (opts : Opts) (res : Res) (hkt : t.engine.kind = .iter) (hwf : t.WF) (htr : t.Truthful σ)
+    (hnd : o.isProj = true → t.spineNoDedup) (hpo : ∀ p, opts.pref = some p → t.prefTargetsGood σ p)
+    (htf : opts.transfer = false)
+    (h : applyOp st (fuel+1) (.u o) t opts = .ok res) : ApplyOK σ o t (res.get t) opts :=
+  applyOp_iter_target_anypref_sound σ st fuel o t opts res hkt hwf htr hnd hpo htf h
 
 /-- **`apply` on a target in a SQL engine, any options, preferred engine of either family.** -/
 theorem apply_on_sql_target_sound (σ : Leaves) (st : Store) (fuel : Nat) (o : UOp) (t : Rel) (opts : Opts)
@@ -120,5 +141,17 @@ example : (applyOp [] defaultFuel (.u (.slice 1 (some 3))) treeS optsS).toOption
     (fun r => match r.get treeS with
       | .unary (.slice 1 (some 3)) (.transfer _ d (.select ..)) _ => d == e0
       | _ => false) = some true := by decide
+
+
+/-- an iteration-engine selection over a relation transferred out of the SQL engine `es`;
+a calculation preferred in `es` is handed to the SQL engine below the transfer -/
+private def treeI : Rel := .unary (.sel (.ref tb)) (.transfer 4 e0 leafS) [ta, tb]
+private def optsI : Opts := { pref := some es, backtrack := true, transfer := false, require := true }
+example (σ : Leaves) (hσ : leafS.Truthful σ) : treeI.WF ∧ treeI.prefTargetsGood σ es :=
+  ⟨⟨trivial, rfl, by decide⟩, ⟨fun _ _ => Good.atom _ rfl trivial hσ rfl, trivial⟩⟩
+example : (applyOp [] defaultFuel (.u (.calc tx (.ref ta))) treeI optsI).toOption.map
+    (fun r => match r.get treeI with
+      | .unary (.sel _) (.transfer _ _ (.select ..)) _ => true
+      | _ => false) = some true := by decide +kernel
 
 end DafRel.Props.C03
